@@ -1914,26 +1914,27 @@ class Scene:
 
         for aircraft_name in aircraft_names:
             derivs[aircraft_name] = {}
-            # Get current aerodynamic state
-            alpha_0, beta_0,_ = self._airplanes[aircraft_name].get_aerodynamic_state()
+            # Get current aerodynamic state (relative to the local wind)
+            v_wind = self._get_wind(self._airplanes[aircraft_name].p_bar)
+            alpha_0, beta_0,_ = self._airplanes[aircraft_name].get_aerodynamic_state(v_wind=v_wind)
 
             # Perturb forward in alpha
-            self._airplanes[aircraft_name].set_aerodynamic_state(alpha=alpha_0+dtheta)
+            self._airplanes[aircraft_name].set_aerodynamic_state(alpha=alpha_0+dtheta, v_wind=v_wind)
             self.solve_forces(dimensional=False, **kwargs)
             FM_dalpha_fwd = self._FM
 
             # Perturb backward in alpha
-            self._airplanes[aircraft_name].set_aerodynamic_state(alpha=alpha_0-dtheta)
+            self._airplanes[aircraft_name].set_aerodynamic_state(alpha=alpha_0-dtheta, v_wind=v_wind)
             self.solve_forces(dimensional=False, **kwargs)
             FM_dalpha_bwd = self._FM
 
             # Perturb forward in beta
-            self._airplanes[aircraft_name].set_aerodynamic_state(alpha=alpha_0, beta=beta_0+dtheta) # We have to reset alpha on this one
+            self._airplanes[aircraft_name].set_aerodynamic_state(alpha=alpha_0, beta=beta_0+dtheta, v_wind=v_wind) # We have to reset alpha on this one
             self.solve_forces(dimensional=False, **kwargs)
             FM_dbeta_fwd = self._FM
 
             # Perturb backward in beta
-            self._airplanes[aircraft_name].set_aerodynamic_state(beta=beta_0-dtheta)
+            self._airplanes[aircraft_name].set_aerodynamic_state(beta=beta_0-dtheta, v_wind=v_wind)
             self.solve_forces(dimensional=False, **kwargs)
             FM_dbeta_bwd = self._FM
 
@@ -1988,7 +1989,7 @@ class Scene:
                 derivs[aircraft_name]["%_static_margin"] = -derivs[aircraft_name]["Cm_w,a"]/derivs[aircraft_name]["CL,a"]*100.0
         
             # Reset aerodynamic state
-            self._airplanes[aircraft_name].set_aerodynamic_state(alpha=alpha_0, beta=beta_0)
+            self._airplanes[aircraft_name].set_aerodynamic_state(alpha=alpha_0, beta=beta_0, v_wind=v_wind)
             self._solved = False
 
         return derivs
